@@ -22,6 +22,22 @@ pub fn modelled(o: &Opts) -> Vec<String> {
     o.extra.get("modelled").map(|s| s.split(',').map(String::from).collect()).unwrap_or_default()
 }
 
+/// field types whose value holds an amount or a rate (an f64 in the library)
+pub fn holds_amount(name: &str) -> bool {
+    ["Field19", "Field32", "Field33B", "Field34F", "Field36", "Field37H", "Field60", "Field61", "Field62", "Field64", "Field65", "Field71F", "Field71G", "Field90"].iter().any(|p| name.starts_with(p))
+}
+
+/// the value with every JSON number erased (see `c02msg`): two values that differ only in numbers differ only in how an
+/// f64 holds a long amount
+pub fn no_numbers(v: &Value) -> Value {
+    match v {
+        Value::Number(_) => Value::Null,
+        Value::Array(a) => Value::Array(a.iter().map(no_numbers).collect()),
+        Value::Object(o) => Value::Object(o.iter().map(|(k, x)| (k.clone(), no_numbers(x))).collect()),
+        x => x.clone(),
+    }
+}
+
 pub fn canon(v: &Value) -> String {
     match v {
         Value::Object(m) => {
@@ -325,12 +341,14 @@ pub fn run(o: &Opts) -> Report {
                         match again {
                             Outcome::Ok { ser: ser2, json: json2, .. } => {
                                 if canon(&json2) != canon(json) {
-                                    rep.fail(&format!("C02|value_changed|{}|{}", sp.name, if crate::fmt::beyond_f64(&c) { "f64-precision" } else { cls.as_str() }), wit("re-parsing the serialisation gives a different value", json!({"ser": ser, "first": json, "second": json2})));
+                                    // excused by the recorded f64 finding only when the field holds an amount, the amount is long, and nothing but numbers differs
+                                    let f64_only = holds_amount(&sp.name) && crate::fmt::beyond_f64(&c) && no_numbers(&json2) == no_numbers(json);
+                                    rep.fail(&format!("C02|value_changed|{}|{}", sp.name, if f64_only { "f64-precision" } else { cls.as_str() }), wit("re-parsing the serialisation gives a different value", json!({"ser": ser, "first": json, "second": json2})));
                                 } else if &ser2 != ser {
                                     rep.fail(&format!("C02|not_fixed_point|{}|{}", sp.name, cls), wit("second serialisation differs", json!({"ser": ser, "ser2": ser2})));
                                 }
                             }
-                            Outcome::Err => rep.fail(&format!("C02|reparse_rejected|{}|{}", sp.name, if crate::fmt::beyond_f64(&c) { "f64-precision" } else { cls.as_str() }), wit("the serialisation of an accepted content is rejected", json!({"ser": ser}))),
+                            Outcome::Err => rep.fail(&format!("C02|reparse_rejected|{}|{}", sp.name, if holds_amount(&sp.name) && crate::fmt::beyond_f64(&c) { "f64-precision" } else { cls.as_str() }), wit("the serialisation of an accepted content is rejected", json!({"ser": ser}))),
                             Outcome::Panic => rep.fail(&format!("C02|reparse_panicked|{}|{}", sp.name, cls), wit("re-parsing the serialisation panics", json!({"ser": ser}))),
                         }
                     }
